@@ -11,3 +11,5 @@ import AkVerif.Props.C03
 import AkVerif.Props.C13
 import AkVerif.Props.C04
 import AkVerif.Props.C05
+import AkVerif.Props.C01
+import AkVerif.Props.C02
